@@ -342,6 +342,14 @@ func hwFlush(body templ.Component) templ.Component {
 	})
 }
 
+// hwForwardNil is a hand-written layer that is itself given a block (which it drops) and tells
+// inner explicitly that it has no children: templ.WithChildren(ctx, nil).
+func hwForwardNil(inner templ.Component) templ.Component {
+	return templ.ComponentFunc(func(ctx context.Context, w io.Writer) error {
+		return inner.Render(templ.WithChildren(ctx, nil), w)
+	})
+}
+
 // hwTwice is a hand-written layer that renders inner twice with the context it was given (a
 // page rendered once for its ETag and once for the response, a preview next to the result).
 func hwTwice(inner templ.Component) templ.Component {
@@ -504,6 +512,8 @@ func (e *Env) Build(n *Node) templ.Component {
 		return hwFlush(e.kid(n, 0))
 	case "hwtwice":
 		return hwTwice(e.kid(n, 0))
+	case "hwforwardnil":
+		return hwForwardNil(e.kid(n, 0))
 	}
 	panic("unknown node kind " + n.K)
 }
